@@ -309,6 +309,15 @@ pub fn in_arena<R>(x: &[u8], f: impl FnOnce(&Vec<u8>) -> R) -> R {
     in_arena_slot(0, x, f)
 }
 
+/// The per-thread counter that decides the offset of the copy inside the read buffer (so that a case can be re-run at
+/// the very alignment it was first judged at).
+pub fn arena_calls() -> u64 {
+    ARENA_CALLS.with(|c| c.get())
+}
+pub fn set_arena_calls(v: u64) {
+    ARENA_CALLS.with(|c| c.set(v));
+}
+
 /// The same with this thread's second, smaller buffer (8 KiB): usable while the first one is held.
 pub fn in_arena2<R>(x: &[u8], f: impl FnOnce(&Vec<u8>) -> R) -> R {
     in_arena_slot(1, x, f)
@@ -519,6 +528,10 @@ pub struct Runner {
     pub replay: Option<(String, Value)>,
     /// cases to judge (verdicts ignored) before the replayed case, on the same thread: the failure depends on them
     pub replay_pre: Vec<Value>,
+    /// read-buffer offset counter the replayed case was first judged at (alignment-dependent failures)
+    pub replay_arena_calls: Option<u64>,
+    /// the counter at the first failure of the stage that has just run (consumed by record_violation)
+    pub fail_arena_calls: Option<u64>,
     pub replay_hit: bool,
     pub stats: Stats,
     pub stages: Vec<StageReport>,
@@ -555,12 +568,29 @@ pub fn journal_path(verif_dir: &str, prop: &str, profile: &str, stage: &str, sha
 }
 
 fn tape_bytes(t: &[u32]) -> Vec<u8> {
-    let mut b = Vec::with_capacity(4 + 4 * t.len());
+    let mut b = Vec::with_capacity(12 + 4 * t.len());
     b.extend_from_slice(&(t.len() as u32).to_le_bytes());
     for c in t {
         b.extend_from_slice(&c.to_le_bytes());
     }
+    // the read-buffer offset counter at the moment the case is judged (alignment-dependent crashes)
+    b.extend_from_slice(&arena_calls().to_le_bytes());
     b
+}
+
+/// The offset counter stored behind the tape in a journal file, if any.
+pub fn journal_arena_calls(b: &[u8]) -> Option<u64> {
+    if b.len() < 4 {
+        return None;
+    }
+    let n = u32::from_le_bytes([b[0], b[1], b[2], b[3]]) as usize;
+    let at = 4 + 4 * n;
+    if b.len() < at + 8 {
+        return None;
+    }
+    let mut x = [0u8; 8];
+    x.copy_from_slice(&b[at..at + 8]);
+    Some(u64::from_le_bytes(x))
 }
 
 fn tape_from_bytes(b: &[u8]) -> Option<Vec<u32>> {
@@ -603,6 +633,8 @@ impl Runner {
             profile: if cfg!(debug_assertions) { "checked".into() } else { "release".into() },
             replay: None,
             replay_pre: Vec::new(),
+            replay_arena_calls: None,
+            fail_arena_calls: None,
             replay_hit: false,
             stats: Stats::default(),
             stages: Vec::new(),
@@ -665,6 +697,9 @@ impl Runner {
                         let mut scratch = Stats { frozen: true, ..Stats::default() };
                         let _ = guard(|| judge(&pc, &mut scratch));
                     }
+                }
+                if let Some(ac) = self.replay_arena_calls {
+                    set_arena_calls(ac);
                 }
                 let r = guard(|| judge(&c, &mut st));
                 self.stats.merge(st);
@@ -784,11 +819,16 @@ impl Runner {
         // Does the case fail on its own? The code under test is supposed to be stateless; if the failure needs the case
         // that the same worker judged just before it (hidden state carried from call to call), the replay file holds the
         // ORIGINAL failing case together with that predecessor, so that the replay reproduces.
+        let ac = self.fail_arena_calls.take();
         let fresh = |cases: Vec<C>| -> Option<Fail> {
             std::thread::scope(|s| {
                 s.spawn(move || {
                     let mut st = Stats { frozen: true, ..Stats::default() };
                     let mut last: Option<Fail> = None;
+                    if let Some(v) = ac {
+                        // the same offset inside the read buffer as at the first failure (minus the predecessor's call)
+                        set_arena_calls(v.saturating_sub(cases.len() as u64 - 1));
+                    }
                     for x in &cases {
                         last = match guard(|| judge(x, &mut st)) {
                             Ok(Ok(())) => None,
@@ -822,6 +862,7 @@ impl Runner {
         let body = json!({
             "preceded_by": preceded_by,
             "history_note": note,
+            "arena_calls": ac,
             "property": self.prop,
             "check": name,
             "sig": f.sig,
@@ -891,7 +932,9 @@ impl Runner {
                 let _ = std::fs::remove_file(&jpath);
                 continue;
             }
-            let tape = match std::fs::read(&jpath).ok().and_then(|b| tape_from_bytes(&b)) {
+            let raw = std::fs::read(&jpath).unwrap_or_default();
+            let jcalls = journal_arena_calls(&raw);
+            let tape = match tape_from_bytes(&raw) {
                 Some(t) => t,
                 None => {
                     let _ = std::fs::remove_file(&jpath);
@@ -950,6 +993,7 @@ impl Runner {
                 let body = json!({
                     "property": self.prop, "check": name, "sig": fail.sig, "entry_point": fail.entry,
                     "expected": fail.expected, "observed": fail.observed, "seed": self.seed, "found_by": "crash/stall triage", "case": c.to_json(),
+                    "arena_calls": jcalls,
                 });
                 let digest = hash_str(&c.to_json().to_string());
                 let path = format!("{}/{}-{}-{}-{:016x}.json", dir, self.prop, name.replace('.', "_"), kind, digest);
@@ -982,6 +1026,9 @@ impl Runner {
             self.replay_hit = true;
             let c = gen(&mut Tape::new(&tape));
             let mut st = Stats::default();
+            if let Some(ac) = self.replay_arena_calls {
+                set_arena_calls(ac);
+            }
             if let Ok(Err(f)) = guard(|| judge(&c, &mut st)) {
                 self.violations.push(Violation { stage: name.to_string(), fail: f, case: c.to_json(), replay_path: String::new() });
             }
@@ -995,7 +1042,7 @@ impl Runner {
         let shards = THREADS.min(cases.max(1) as usize).max(1);
         let per = (cases + shards as u64 - 1) / shards as u64;
         let stop = AtomicBool::new(false);
-        let results: Mutex<Vec<(usize, Stats, Option<(C, Fail)>, Option<(C, C)>)>> = Mutex::new(Vec::new());
+        let results: Mutex<Vec<(usize, Stats, Option<(C, Fail)>, Option<(C, C)>, Option<u64>)>> = Mutex::new(Vec::new());
         let known: Vec<String> = self.known.iter().filter(|k| k.property == self.prop).map(|k| k.sig.clone()).collect();
         let (seed, prop) = (self.seed, self.prop);
         let journal = self.journal;
@@ -1053,6 +1100,7 @@ impl Runner {
                     // the tape judged just before the current one, and the one that preceded the first failure
                     let prev_tape: std::cell::RefCell<Option<Vec<u32>>> = std::cell::RefCell::new(None);
                     let pre_at_fail: std::cell::RefCell<Option<(Vec<u32>, Vec<u32>)>> = std::cell::RefCell::new(None);
+                    let calls_at_fail: std::cell::Cell<Option<u64>> = std::cell::Cell::new(None);
                     let res = runner.run(&strat, |tape| {
                         let mut st = st.borrow_mut();
                         let st = &mut *st;
@@ -1066,6 +1114,7 @@ impl Runner {
                             progress[shard].fetch_add(1, Ordering::Relaxed);
                         }
                         let c = gen(&mut Tape::new(&tape));
+                        let calls_before = arena_calls();
                         let r = match guard(|| judge(&c, st)) {
                             Ok(r) => r,
                             Err(p) => Err(Fail::new("harness-panic", "", name, "judge returns", format!("judge panicked: {}", p))),
@@ -1080,6 +1129,7 @@ impl Runner {
                             Err(f) => {
                                 if !st.frozen {
                                     *pre_at_fail.borrow_mut() = prev_tape.borrow().clone().map(|p| (p, tape.clone()));
+                                    calls_at_fail.set(Some(calls_before));
                                 }
                                 if known.iter().any(|k| *k == f.sig) {
                                     if !st.frozen {
@@ -1120,23 +1170,26 @@ impl Runner {
                     }
                     finished.fetch_add(1, Ordering::Relaxed);
                     let pre = if found.is_some() { pre_at_fail.into_inner().map(|(p, o)| (gen(&mut Tape::new(&p)), gen(&mut Tape::new(&o)))) } else { None };
-                    results.lock().unwrap().push((shard, st, found, pre));
+                    results.lock().unwrap().push((shard, st, found, pre, calls_at_fail.get()));
                 });
             }
         });
         let mut stage = Stats::default();
         let mut first: Option<(C, Fail)> = None;
         let mut pre: Option<(C, C)> = None;
+        let mut fail_calls: Option<u64> = None;
         // merge in shard order so that samples and the reported failure do not depend on thread timing
         let mut shard_results = results.into_inner().unwrap();
         shard_results.sort_by_key(|x| x.0);
-        for (_, st, f, p) in shard_results {
+        for (_, st, f, p, ac) in shard_results {
             stage.merge(st);
             if first.is_none() && f.is_some() {
                 first = f;
                 pre = p;
+                fail_calls = ac;
             }
         }
+        self.fail_arena_calls = fail_calls;
         self.finish_stage(name, "random(proptest tape)", stage, None, t0);
         if let Some((c, f)) = first {
             self.record_violation(name, c, f, judge, pre);
